@@ -140,8 +140,7 @@ impl<F: Float + SampleUniform + std::fmt::Debug, D: Hash + Copy, H: Hasher + Def
         //
         if self.nb_empty > 0 {
             // now we run densification if necessary
-            let res = self.densify();
-            assert!(res.is_ok());
+            self.densify()?;
         }
         //
         Ok(())
@@ -177,7 +176,7 @@ impl<F: Float + SampleUniform + std::fmt::Debug, D: Hash + Copy, H: Hasher + Def
             return;
         }
         let res = self.densify();
-        assert!(res.is_ok());
+        assert!(res.is_ok(), "end_sketch failed : {:?}", res.err());
     }
 
     // This method must be called before get_hsketch, get_hsketch_u32 or get_hsketch_u64
@@ -186,6 +185,12 @@ impl<F: Float + SampleUniform + std::fmt::Debug, D: Hash + Copy, H: Hasher + Def
     fn densify(&mut self) -> anyhow::Result<()> {
         // now we run densification
         let m: usize = self.hsketch.len();
+        if self.nb_empty >= m as i64 {
+            // no bin to copy from, the search of a non empty bin would never end
+            return Err(anyhow::anyhow!(
+                "OptDensMinHash: densification impossible, no data sketched"
+            ));
+        }
         let mut nbpass = 1u64;
         let inrange = Uniform::<usize>::new(0, m).unwrap();
         for k in 0..m {
@@ -351,8 +356,7 @@ impl<F: Float + SampleUniform + std::fmt::Debug, D: Hash + Copy, H: Hasher + Def
         //
         if self.nb_empty > 0 {
             // now we run densification if necessary
-            let res = self.densify();
-            assert!(res.is_ok());
+            self.densify()?;
         }
         log::debug!(
             "fastdensminhash::sketch_slice sketch size : {:?},  nb empy slots : {:?}",
@@ -369,6 +373,12 @@ impl<F: Float + SampleUniform + std::fmt::Debug, D: Hash + Copy, H: Hasher + Def
     fn densify(&mut self) -> anyhow::Result<()> {
         // now we run densification
         let m: usize = self.hsketch.len();
+        if self.nb_empty >= m as i64 {
+            // no bin to copy from, the passes would never fill anything
+            return Err(anyhow::anyhow!(
+                "RevOptDensMinHash: densification impossible, no data sketched"
+            ));
+        }
         let unif_m = Uniform::<usize>::new(0, m).unwrap();
         let mut pass: u64 = 1;
         while self.nb_empty > 0 {
@@ -403,7 +413,7 @@ impl<F: Float + SampleUniform + std::fmt::Debug, D: Hash + Copy, H: Hasher + Def
             return;
         }
         let res = self.densify();
-        assert!(res.is_ok());
+        assert!(res.is_ok(), "end_sketch failed : {:?}", res.err());
     }
     /// verification hook: (float sketch, u64 values, init flags, nb_empty), readable before end_sketch
     #[cfg(probminhash_verif)]
